@@ -632,6 +632,13 @@ def run_c12(tmp, tier, rnd):
         # a non-UTF-8 (Latin-1) source with a long function, and a malformed one
         (root / "latin.py").write_bytes(("# caf\xe9\n" + body("py", "latin", 40)).encode("latin-1"))
         (root / "broken.js").write_text("function f( {\n" + "x;\n" * 40)
+        # a file with CR-only line ends (text mode translates them) and a symbolic link to a file with long functions
+        (root / "cr.py").write_bytes(body("py", "cr_only", 45).replace("\n", "\r").encode())
+        try:
+            if not (root / "twin.py").exists():
+                os.symlink(root / "latin.py", root / "twin.py")
+        except OSError:
+            pass
         # hidden directories that no built-in exclusion names, holding long functions
         for hd in (".tools/gen", "src/.cache"):
             (root / hd).mkdir(parents=True, exist_ok=True)
@@ -732,6 +739,10 @@ def run_c03_paths(tmp, tier, rnd):
     (root / "long.py").write_text(body("py", "big", 70))
     (root / "latin.py").write_bytes(("# caf\xe9\n" + body("py", "latin", 40)).encode("latin-1"))
     (root / "bin.py").write_bytes(bytes(range(256)))
+    (root / "bom16le.py").write_bytes(b"\xff\xfe" + body("py", "big", 40).encode("latin-1") + b"\xe9")      # odd length after the mark
+    (root / "bom16be.js").write_bytes(b"\xfe\xff\xd8\x00" + body("js", "big", 40).encode())                # unpaired surrogate
+    (root / "bom8.py").write_bytes(b"\xef\xbb\xbf" + ("# caf\xe9\n" + body("py", "big", 40)).encode("latin-1"))
+    (root / "nul.c").write_bytes(body("c", "big", 40).encode() + b"\x00\x00\xff")
     # several functions of exactly the same length (ties in any ordering of the findings)
     (root / "ties.py").write_text(body("py", "one", 40) + body("py", "two", 40) + body("py", "three", 40) + body("py", "four", 70) + body("py", "five", 70))
     (root / "ties.js").write_text(body("js", "one", 35) + body("js", "two", 35))
@@ -749,7 +760,7 @@ def run_c03_paths(tmp, tier, rnd):
         ways += [("sibling-file-absolute", root, str(d / "long.py")), ("sibling-dir-absolute", root, str(d)),
                  ("sibling-file-relative", root, os.path.relpath(d / "long.py", root)), ("sibling-dir-relative", root, os.path.relpath(d, root))]
     ways += [("relative", root, "ties.py"), ("relative", root, "ties.js"), ("absolute", root, str((root / "ties.py").resolve()))]
-    for f in ("long.py", "latin.py", "bin.py", "src"):
+    for f in ("long.py", "latin.py", "bin.py", "bom16le.py", "bom16be.js", "bom8.py", "nul.c", "src"):
         ways += [("relative", root, f), ("absolute", root, str((root / f).resolve())), ("from-elsewhere-absolute", other, str((root / f).resolve())),
                  ("from-elsewhere-relative", other, os.path.relpath(root / f, other))]
     ways += [("root-dir", root, "."), ("dir-from-elsewhere", other, str(root.resolve())), ("dir-from-elsewhere-relative", other, "../proj")]
@@ -869,6 +880,24 @@ def run_c02(tmp, tier, rnd):
                     fails.append(("quiet", f"check {' '.join(combo)} printed nothing without --quiet", None))
                 if qf and want_listed and not text.strip():
                     fails.append(("quiet", f"check --quiet {' '.join(combo)} printed nothing although {want_listed} need refactoring", None))
+    # the same path checked again after the file was edited (same process): the second check sees the new content
+    with cwd(root):
+        ed = root / "edited.py"
+        for first, second in ((31, 62), (62, 20), (20, 45)):
+            n += 1
+            ed.write_text(body("py", "fn_edit", first))
+            try:
+                run_check_printed(["edited.py"], False)
+                ed.write_text(body("py", "fn_edit", second))
+                code, text = run_check_printed(["edited.py"], False)
+            except Exception as e:  # noqa
+                fails.append(("exception", f"check edited.py twice: {type(e).__name__}: {str(e)[:100]}", None))
+                continue
+            listed_n = text.count("fn_")
+            if code != (1 if second > 60 else 0) or listed_n != (1 if second > 30 else 0) or (second > 30 and str(second) not in text):
+                fails.append(("stale-after-edit", f"check edited.py ({first} lines), edit to {second} lines, check again: exit {code}, {listed_n} listed, "
+                              f"output {text[-160:]!r}", None))
+        ed.unlink()
     # the overview the scan command prints while scanning: per-language counters of this scan only, also when another tree
     # was scanned before in the same process
     import re
@@ -1017,6 +1046,10 @@ def run_c06(tmp, tier, rnd):
     (mix / "LICENSE").write_text("text\n")
     (mix / "SConstruct").write_text(body("py", "build", 35))
     (mix / "SConscript").write_text(body("py", "sub", 33))
+    (mix / "m.c").write_text(body("c", "same", 35))
+    (mix / "n.C").write_text(body("c", "same", 35))
+    (mix / "p.h").write_text(body("c", "hdr", 33))
+    (mix / "q.H").write_text(body("c", "hdr", 33))
     (mix / "l_latin.py").write_bytes((body("py", "latin", 35) + "s = 'caf\u00e9'\n").encode("latin-1"))
     (mix / "u_utf8.py").write_bytes(body("py", "gr\u00f6\u00dfe", 35).encode("utf-8"))
     (mix / "v_utf8.js").write_bytes(body("js", "\u00fcber", 35).encode("utf-8"))
@@ -1027,7 +1060,7 @@ def run_c06(tmp, tier, rnd):
             shutil.rmtree(one)
         one.mkdir()
         shutil.copy(mix / nm, one / nm)
-        p = subprocess.run([sys.executable, os.path.abspath(__file__), "--scan-files", str(one)], capture_output=True, text=True, timeout=300)
+        p = subprocess.run([sys.executable, os.path.abspath(__file__), "--scan-files-lang", str(one)], capture_output=True, text=True, timeout=300)
         alone.update(json.loads(p.stdout.strip().splitlines()[-1]))
     real_walk = os.walk
     from codelimit.common.Scanner import scan_path as _scan_path
@@ -1040,7 +1073,7 @@ def run_c06(tmp, tier, rnd):
         try:
             set_excludes([])
             cb = _scan_path(mix)
-            got = {k: [[m.unit_name, m.value] for m in v.measurements()] for k, v in cb.files.items()}
+            got = {k: [v.language, [[m.unit_name, m.value] for m in v.measurements()]] for k, v in cb.files.items()}
         except Exception as e:  # noqa
             got = f"{type(e).__name__}: {e}"
         finally:
@@ -1085,6 +1118,12 @@ def main():
     if sys.argv[1] == "--interrupted-scan":
         set_excludes([])
         scan(sys.argv[2])
+        return
+    if sys.argv[1] == "--scan-files-lang":
+        from codelimit.common.Scanner import scan_path
+        set_excludes([])
+        cb = scan_path(Path(sys.argv[2]))
+        print(json.dumps({k.replace(os.sep, "/"): [v.language, [(m.unit_name, m.value) for m in v.measurements()]] for k, v in cb.files.items()}))
         return
     if sys.argv[1] == "--scan-files":
         from codelimit.common.Scanner import scan_path
